@@ -242,6 +242,10 @@ structure Ext where
   maxConnections : Int := 0
   /-- `readFile.totalLineCount()` where the translation does not follow the statistics -/
   lineCount : Int := 0
+  /-- `len(lines)` and `cap(lines)` of the channel to the client as the filter sees them (they matter only to a reader that may
+      skip lines: tail) -/
+  linesLen : Int := 0
+  linesCap : Int := 1
   /-- `config.Server.MaxLineLength` -/
   maxLineLength : Int := 1048576
   /-- whether an operation on the file system fails, given the operations that succeeded before it -/
